@@ -12,6 +12,11 @@ Case classes (a replay case is [class, index]; every case has its own PRNG deriv
   hp    host, port pairs                    -> oracle (e)
   junk  authority with arbitrary text around a bracketed literal  -> oracle (d) + (e) on the host:port string
   ws    valid URI with raw TAB / CR / LF / other C0 controls / SPACE / DEL inserted anywhere  -> oracle (d)
+  zone  IPv6 literals with zone identifiers: one literal in several RFC 6874 spellings of its ZoneID (escaped unreserved
+        characters, either hex case, names that begin with "25", names that need escapes) as the host of a URI -> (a), (b);
+        as the destination (RFC 4007 form, what transports' addresses carry) of an option set, alone or with Uri-Port /
+        Uri-Host -> (c); as a Uri-Host option value that is an IP literal (RFC 7252 6.5 step 3) -> composed URI valid, names
+        that literal, accepted again with that destination; with a bare "%zone" in URI text -> (d)
   fixed hand-written witnesses (RFC examples, repository test URIs, one per known mechanism)
 
 Input groups with mechanism key families of their own (each has a g* monitor counter):
@@ -23,6 +28,12 @@ Input groups with mechanism key families of their own (each has a g* monitor cou
   accept/junk-around-ip-literal/...        "[::1]junk:5684", "junk[::1]", "[::1]]": not host[:port] (RFC 3986 3.2.2); accepted
       with the extra text dropped (uri/...) or split by hostportsplit into something that joins to another string (hostportsplit/...)
   accept/whitespace-or-control-dropped/... text with raw controls / spaces (not a URI) accepted and decomposed as if they were not there
+  decompose/zone-id/..., compose/zone-id/...   the two text forms of a zone identifier (harness/refuri.py, "Zone identifiers"): "%25" ZoneID,
+      percent-decoded, in URI text (RFC 6874); "%" and the verbatim name in the host[:port] string of a destination (RFC 4007
+      11.2; util.hostportsplit's documented '[::1%eth0]:56830' -> '::1%eth0', the hostinfo of the transports' addresses).
+      A remote's hostinfo is read in the second form, wherever it came from: "coap://[fe80::1%25lo]/" has to end up with the
+      destination fe80::1%lo (not zone "25lo"), every spelling of one ZoneID with the same destination, and a destination
+      [fe80::1%lo] has to be composed as [fe80::1%25lo]
 """
 
 import random
@@ -30,15 +41,16 @@ import traceback
 
 ID = "C16"
 LEVEL = "exploration"
-TECHNIQUE = "differential runtime monitoring: the real Message.set_request_uri / get_request_uri / UndecidedRemote / hostportsplit / hostportjoin driven with generated URIs, option sets, damaged URIs, arbitrary strings, authorities with text around bracketed literals and URIs with raw control / space characters inserted, judged by an independent RFC 3986 + RFC 6874 + RFC 7252 section 6.4/6.5 reference (harness/refuri.py)"
-LEVEL_TEXT = "Held on every generated case: ~3.9e5 (quick) / ~1.6e7 (thorough) URIs, option sets, damaged URIs, arbitrary strings and host/port pairs over 6 schemes in mixed case, names / escaped names / escaped names whose decoded value has brackets and other gen-delims at any position incl. first and last / IPv4 / IPv4 look-alikes / IPv6 in all text forms / zone ids / IPvFuture, all port classes, path and query segments over the whole Unicode range incl. reserved characters and empty segments, dot segments with any subset of their dots percent-encoded (either hex case) as first / middle / last segment, authorities with arbitrary text before / behind a bracketed literal (also through hostportsplit), raw TAB / CR / LF / other C0 controls / SPACE / DEL at arbitrary positions of a URI; says nothing about inputs outside the generators' classes."
-LEVEL_NOTE = "Trusted: harness/refuri.py (self-tested each run on the RFC 7252 6.3 / Appendix B and RFC 3986 examples). Judged leniently on purpose: order of lower-casing vs percent-decoding of the host, where the port is stored, explicit default ports, 'coap://h/?' ([] or ['']), IPv4 text with leading zeros, text with raw non-ASCII characters (IRI), incomplete % sequences, ports > 65535; a URI with percent-encoded dot segments may also be refused with a URL error; text with raw controls / spaces (not a URI: rejection is what is demanded) may be accepted if every such character is kept as data exactly as its percent-encoding would be -- only its silent removal is reported; an escaped reg-name whose decoded value is a complete IP literal ('%5B%3A%3A1%5D') or IPv4 address is not judged, nor is a Uri-Host option holding such a value (RFC 7252 6.5 step 3 composes it as that literal); a string with text around brackets that hostportsplit splits so that hostportjoin restores it is tolerated."
+TECHNIQUE = "differential runtime monitoring: the real Message.set_request_uri / get_request_uri / UndecidedRemote / hostportsplit / hostportjoin driven with generated URIs, option sets, damaged URIs, arbitrary strings, authorities with text around bracketed literals, URIs with raw control / space characters inserted and IPv6 literals with zone identifiers in all their RFC 6874 spellings (as URI host, as destination of an option set, as Uri-Host value), judged by an independent RFC 3986 + RFC 6874 + RFC 7252 section 6.4/6.5 reference (harness/refuri.py)"
+LEVEL_TEXT = "Held on every generated case: ~3.9e5 (quick) / ~1.6e7 (thorough) URIs, option sets, damaged URIs, arbitrary strings and host/port pairs over 6 schemes in mixed case, names / escaped names / escaped names whose decoded value has brackets and other gen-delims at any position incl. first and last / IPv4 / IPv4 look-alikes / IPv6 in all text forms / zone ids / IPvFuture, all port classes, path and query segments over the whole Unicode range incl. reserved characters and empty segments, dot segments with any subset of their dots percent-encoded (either hex case) as first / middle / last segment, authorities with arbitrary text before / behind a bracketed literal (also through hostportsplit), raw TAB / CR / LF / other C0 controls / SPACE / DEL at arbitrary positions of a URI, zone identifiers (interface-like names, indices, names beginning with '25', names that need escapes) in several ZoneID spellings each (escaped unreserved characters, either hex case) as URI host / destination of an option set / IP-literal Uri-Host value; says nothing about inputs outside the generators' classes."
+LEVEL_NOTE = "Trusted: harness/refuri.py (self-tested each run on the RFC 7252 6.3 / Appendix B and RFC 3986 examples). Judged leniently on purpose: order of lower-casing vs percent-decoding of the host, where the port is stored, explicit default ports, 'coap://h/?' ([] or ['']), IPv4 text with leading zeros, text with raw non-ASCII characters (IRI), incomplete % sequences, ports > 65535; a URI with percent-encoded dot segments may also be refused with a URL error; text with raw controls / spaces (not a URI: rejection is what is demanded) may be accepted if every such character is kept as data exactly as its percent-encoding would be -- only its silent removal is reported; an escaped reg-name whose decoded value is a complete IP literal ('%5B%3A%3A1%5D') or IPv4 address is not judged, nor is a Uri-Host option holding such a value (RFC 7252 6.5 step 3 composes it as that literal); a string with text around brackets that hostportsplit splits so that hostportjoin restores it is tolerated; a zone identifier whose decoded name has other than unreserved characters may be refused with a URL error (if accepted it is judged like any other); URI text with a bare '%zone' (not RFC 6874 syntax) may be accepted if the destination has exactly that zone; for a Uri-Host option holding an IP literal only the weaker demand is made that the composed URI is valid, names that literal and is accepted again with it as the destination (6.4 puts no Uri-Host back)."
 RULE = (
     "cases are (a/b) generated valid URIs decomposed by Message(uri=...) and recomposed by get_request_uri(), (c) option sets built on a "
     "Message with an UndecidedRemote, composed, decomposed again and compared, plus a structurally neighbouring twin that must not compose to the "
     "same URI, (d) URIs damaged into a stated rejection class, arbitrary strings, authorities with text around a bracketed literal and URIs with raw "
     "control / space characters inserted (accepted text must account for every character: what was dropped makes a violation), (e) host/port pairs "
     "through hostportjoin/hostportsplit and the bracket-with-text strings through hostportsplit (ValueError or a split that joins back to the string). "
+    "The hostinfo of a message's remote is read as host[:port] with a zone identifier in RFC 4007 form (bare '%', verbatim name), URI text in RFC 6874 form ('%25', percent-decoded ZoneID): the zone of the destination must be the zone the URI names, whatever the spelling. "
     "A URI with percent-encoded dot segments must decompose like the equivalent one with literal dots (or be refused) and never to Uri-Path values '.' / '..'. "
     "A case is non-trivial unless it is a bare scheme://name[/] URI; distinct = distinct (class, scheme, host kind, port class, number of path "
     "and query segments, character classes present in path / query / host, kind and place of dot segments / bracket text / raw controls, outcome) signatures"
@@ -49,6 +61,7 @@ ASSUMPTIONS = [
     "Uri-Host option values in generated option sets are lower-case and non-empty; values that are a complete IP literal or IPv4 address are outside the judged domain (anything else, brackets included, is reg-name data that 6.4 can produce from a percent-encoded reg-name)",
     "a percent-encoded dot segment is equivalent to the literal one (RFC 3986 2.3: '.' is unreserved) and is removed like it (6.2.2.3)",
     "raw C0 controls, SPACE and DEL are not URI characters anywhere in a URI (RFC 3986 section 2 / Appendix A); square brackets occur only as the delimiters of an IP literal that is the whole host (3.2.2)",
+    "a remote's hostinfo carries a zone identifier in the RFC 4007 form ('[fe80::1%eth0]:5683'), which is what util.hostportsplit documents, what the transports' endpoint addresses produce and what they pass on to getaddrinfo / if_nametoindex; URI text carries it in the RFC 6874 form",
     "URI text is str without lone surrogates; the URL errors are aiocoap.error.MalformedUrlError and IncompleteUrlError",
 ]
 _BASE_MONITORS = {
@@ -64,10 +77,13 @@ _BASE_MONITORS = {
 }
 # g1: a Uri-Host that begins with "[" and ends with "]" without being an IP literal was composed and judged (from a URI / as an option set);
 # g2: a URI with a percent-encoded dot segment was decomposed and judged; g3: text around a bracketed literal / raw controls or spaces
-# went through set_request_uri resp. hostportsplit and the outcome was judged
+# went through set_request_uri resp. hostportsplit and the outcome was judged; g4: a URI whose host is an IPv6 literal with a zone identifier was
+# decomposed and judged (all / those whose ZoneID spelling has escapes / those whose zone name begins with "25"), an option set whose destination has a
+# zone identifier and no Uri-Host was composed and judged, an option set whose Uri-Host is an IP literal (with zone) was composed and judged, URI text
+# with a bare "%zone" was judged
 REQUIRED_MONITORS = {
-    "quick": dict(_BASE_MONITORS, g1_bracketed_host_uri=700, g1_bracketed_host_options=400, g2_escaped_dot_segment=1500, g3_junk_around_literal_uri=8000, g3_junk_around_literal_hostportsplit=8000, g3_control_or_space_uri=15000, lone_surrogate_text=60),
-    "thorough": dict(_BASE_MONITORS, g1_bracketed_host_uri=28000, g1_bracketed_host_options=16000, g2_escaped_dot_segment=60000, g3_junk_around_literal_uri=320000, g3_junk_around_literal_hostportsplit=320000, g3_control_or_space_uri=600000, lone_surrogate_text=2400),
+    "quick": dict(_BASE_MONITORS, g1_bracketed_host_uri=700, g1_bracketed_host_options=400, g2_escaped_dot_segment=1500, g3_junk_around_literal_uri=8000, g3_junk_around_literal_hostportsplit=8000, g3_control_or_space_uri=15000, lone_surrogate_text=60, g4_zone_uri=12000, g4_zone_uri_escaped_spelling=4000, g4_zone_uri_name_begins_25=1200, g4_zone_destination_options=4000, g4_zone_literal_uri_host_options=2000, g4_bare_zone_uri=1500),
+    "thorough": dict(_BASE_MONITORS, g1_bracketed_host_uri=28000, g1_bracketed_host_options=16000, g2_escaped_dot_segment=60000, g3_junk_around_literal_uri=320000, g3_junk_around_literal_hostportsplit=320000, g3_control_or_space_uri=600000, lone_surrogate_text=2400, g4_zone_uri=480000, g4_zone_uri_escaped_spelling=160000, g4_zone_uri_name_begins_25=48000, g4_zone_destination_options=160000, g4_zone_literal_uri_host_options=80000, g4_bare_zone_uri=60000),
 }
 EXHAUSTIVE = {"fixed_witnesses": "every entry of FIXED (RFC 7252 6.3 / Appendix B examples, the repository's test URIs, one witness per known mechanism) in every run"}
 
@@ -78,10 +94,10 @@ EXHAUSTIVE = {"fixed_witnesses": "every entry of FIXED (RFC 7252 6.3 / Appendix 
 STRICT_EMPTY_COMPONENTS = True
 
 SCHEMES = ["coap", "coaps", "coap+tcp", "coaps+tcp", "coap+ws", "coaps+ws"]
-CLASSES = {"uri": 0, "opt": 1, "bad": 2, "arb": 3, "hp": 4, "fixed": 5, "junk": 6, "ws": 7}
+CLASSES = {"uri": 0, "opt": 1, "bad": 2, "arb": 3, "hp": 4, "fixed": 5, "junk": 6, "ws": 7, "zone": 8}
 PER_SHARD = {
-    "quick": {"uri": 7000, "opt": 3500, "bad": 2500, "arb": 4000, "hp": 2000, "junk": 1500, "ws": 2500},
-    "thorough": {"uri": 280000, "opt": 140000, "bad": 100000, "arb": 160000, "hp": 80000, "junk": 60000, "ws": 100000},
+    "quick": {"uri": 7000, "opt": 3500, "bad": 2500, "arb": 4000, "hp": 2000, "junk": 1500, "ws": 2500, "zone": 1200},
+    "thorough": {"uri": 280000, "opt": 140000, "bad": 100000, "arb": 160000, "hp": 80000, "junk": 60000, "ws": 100000, "zone": 48000},
 }
 
 
@@ -479,7 +495,8 @@ def optset_hostinfo(o):
     from harness import refuri as ref
 
     kind, value, zone = o["dest"]
-    h = value if kind == "name" else ref.host_text(kind, value, zone)
+    # (a destination's host[:port] string has the zone identifier in the RFC 4007 form: "[fe80::1%eth0]:5683")
+    h = value if kind == "name" else (ref.scoped_host_text(value, zone) if kind == "ipv6" else ref.host_text(kind, value, zone))
     return h if o["dport"] is None else "%s:%d" % (h, o["dport"])
 
 
@@ -782,6 +799,84 @@ def gen_ws_uri(r):
     return base, text
 
 
+# -- zone identifiers ---------------------------------------------------------------------------------------
+
+ZONE_EXOTIC_OK = list("!$&'()*+,;=") + ["ä", "中", "/", ":", "@", "?", "#", "\\", "|"]  # a bracketed host[:port] string can hold them
+ZONE_EXOTIC_NO = ["%", "]", "[", " ", "\x00", "\t", "\x7f"]  # ... and these it can not
+
+
+def gen_zone_name(r):
+    """-> (decoded zone name, class): interface-like names, indices, names that begin with "25" (the text that RFC 6874's
+    delimiter "%25" leaves behind when it is mistaken for "%"), names with characters that a ZoneID can only hold escaped."""
+    k = r.random()
+    if k < 0.42:
+        return gen_zone(r), "plain"
+    if k < 0.64:
+        return "25" + r.choice(["", "lo", "eth0", "0", "25", "2525", "-1", gen_zone(r)]), "begins-25"
+    if k < 0.74:
+        return str(r.choice([1, 2, 9, 15, 24, 26, 100, r.randrange(1, 5000)])), "index"
+    z = gen_zone(r)
+    j = r.randrange(len(z) + 1)
+    if k < 0.90:
+        return z[:j] + r.choice(ZONE_EXOTIC_OK) + z[j:], "exotic"
+    return z[:j] + r.choice(ZONE_EXOTIC_NO) + z[j:], "exotic-unsplittable"
+
+
+def enc_zone(r, zone, p_escape):
+    """One RFC 6874 ZoneID spelling of the name: unreserved characters literal or (with p_escape) escaped, all others escaped."""
+    from harness import refuri as ref
+
+    out = []
+    for c in zone:
+        if c in ref.UNRESERVED and r.random() >= p_escape:
+            out.append(c)
+        else:
+            out.extend(hexbyte(r, b, 2) for b in c.encode("utf8"))
+    return "".join(out)
+
+
+def gen_zone_case(r):
+    """-> dict(mode=...). Modes: "uri" (one zoned literal, several ZoneID spellings, as the host of otherwise equal URIs), "dest"
+    (option set whose destination has the zone), "lit" (option set whose Uri-Host is an IP literal), "bare" ("%zone" in URI text)."""
+    from harness import refuri as ref
+
+    k = r.random()
+    addr = gen_ipv6_text(r)
+    value = ref.parse_ipv6(addr)
+    if k < 0.45 or k >= 0.88:
+        text, _meta = gen_uri(r, hk="ipv4", plain=True)
+        scheme, authority, path, query, _ = ref.split_components(text)
+        _, _h, port = ref.split_authority(authority)
+        tail = ("" if port is None else ":" + port) + path + ("" if query is None else "?" + query)
+        if k >= 0.88:
+            while True:
+                zone = gen_zone(r)
+                if not zone.startswith("25"):
+                    break
+            return {"mode": "bare", "uri": scheme + "://[" + addr + "%" + zone + "]" + tail, "value": value, "zone": zone}
+        zone, zcls = gen_zone_name(r)
+        spellings = [enc_zone(r, zone, 0.0)]
+        for _ in range(r.choice([1, 2, 2])):
+            spellings.append(enc_zone(r, zone, r.choice([0.3, 0.3, 1.0])))
+        return {"mode": "uri", "zone": zone, "zcls": zcls, "uris": [scheme + "://[" + addr + "%25" + sp + "]" + tail for sp in spellings]}
+    o = gen_optset(r)
+    while True:
+        zone, zcls = gen_zone_name(r)
+        if ref.zone_in_hostport_string(zone):
+            break
+    if k < 0.70:
+        o["dest"] = ("ipv6", value, zone)
+        if r.random() < 0.8:
+            o["uri_host"] = None
+            o["flags"] = [f for f in o["flags"] if not f.startswith("host-")]
+        o["flags"] = sorted(set(o["flags"]) | {"zone-" + zcls})
+        return {"mode": "dest", "options": o}
+    haszone = r.random() < 0.8
+    o["uri_host"] = "[" + addr.lower() + ("%25" + enc_zone(r, zone, r.choice([0.0, 0.0, 0.3, 1.0])) if haszone else "") + "]"
+    o["flags"] = sorted({f for f in o["flags"] if not f.startswith("host-")} | {"host-literal"} | ({"zone-" + zcls} if haszone else set()))
+    return {"mode": "lit", "options": o, "value": value, "zone": zone if haszone else None}
+
+
 # ---- fixed witnesses -------------------------------------------------------------------------------
 FIXED = [
     # RFC 7252 6.3, Appendix B
@@ -860,6 +955,19 @@ FIXED = [
     ("arb", "\x00\x1fcoap://h/a"),
     ("arb", "coap://h/a\x0bb c\x7f"),
     ("arb", "coap://h/a%09b%20c"),
+    # zone identifiers: RFC 6874 spellings of one literal, a name that begins with "25", as destination, as Uri-Host literal, bare
+    ("uri", "coap://[fe80::1%25lo]/x"),
+    ("uri", "coap://[fe80::1%25eth0]/"),
+    ("uri", "coap://[fe80::1%25%65th0]/"),
+    ("uri", "coap://[fe80::1%25eth%30]:5683/"),
+    ("uri", "coap://[fe80::1%25eth%2D0]/x"),
+    ("uri", "coap://[fe80::1%2525lo]/x"),
+    ("arb", "coap://[fe80::1%lo]/x"),
+    ("opt", {"scheme": "coap", "dest": ["ipv6", 0xFE80 << 112 | 1, "eth0"], "dport": None, "uri_host": None, "uri_port": None, "path": ["x"], "query": [], "flags": ["zone-plain"]}),
+    ("opt", {"scheme": "coap", "dest": ["ipv6", 0xFE80 << 112 | 1, "25lo"], "dport": 5684, "uri_host": None, "uri_port": 1234, "path": [], "query": [], "flags": ["zone-begins-25"]}),
+    ("lit", {"scheme": "coap", "dest": ["name", "dest.example", None], "dport": None, "uri_host": "[fe80::1%25eth%2D0]", "uri_port": None, "path": ["x"], "query": [], "flags": ["host-literal", "zone-plain"]}, 0xFE80 << 112 | 1, "eth-0"),
+    ("lit", {"scheme": "coap", "dest": ["name", "dest.example", None], "dport": None, "uri_host": "[fe80::1%25eth0]", "uri_port": None, "path": ["x"], "query": [], "flags": ["host-literal", "zone-plain"]}, 0xFE80 << 112 | 1, "eth0"),
+    ("lit", {"scheme": "coap", "dest": ["ipv4", 0x0A000001, None], "dport": None, "uri_host": "[2001:db8::1]", "uri_port": 61616, "path": [], "query": ["a"], "flags": ["host-literal"]}, 0x20010DB8 << 96 | 1, None),
 ]
 
 
@@ -873,7 +981,17 @@ def host_needs_escape(uri_host):
 
 
 MECHANISM_KEYS = ("compose/host-reserved-char-not-escaped", "decompose/dot-segments-not-removed")
-MECHANISM_FAMILIES = ("compose/bracketed-non-literal-host/", "decompose/pct-encoded-dot-segment/", "accept/junk-around-ip-literal/", "accept/whitespace-or-control-dropped/")
+MECHANISM_FAMILIES = ("compose/bracketed-non-literal-host/", "decompose/pct-encoded-dot-segment/", "accept/junk-around-ip-literal/", "accept/whitespace-or-control-dropped/", "decompose/zone-id/", "compose/zone-id/")
+
+
+def dest_of(hostinfo):
+    """A remote's hostinfo -> ((kind, value, zone), port). A zone identifier in it is in the RFC 4007 form (see the module
+    docstring); everything else is read as before (names may carry escapes)."""
+    from harness import refuri as ref
+
+    scoped = hostinfo.startswith("[") and "%" in hostinfo.partition("]")[0]
+    return ref.split_hostinfo(hostinfo, uri_form=not scoped)
+
 
 
 def pref(pre, key):
@@ -1036,7 +1154,7 @@ class Checker:
         """(scheme, host kind, host value, zone, port, path, query) the message denotes (6.5 steps 1-5)."""
         from harness import refuri as ref
 
-        (kind, value, zone), port = ref.split_hostinfo(obs.hostinfo)
+        (kind, value, zone), port = dest_of(obs.hostinfo)
         if obs.uri_host is not None:
             kind, value, zone = "name", obs.uri_host, None
         elif kind == "name":
@@ -1061,7 +1179,7 @@ class Checker:
             bad.append(("scheme", (obs.scheme, D.scheme)))
         dest = None
         try:
-            dest = ref.split_hostinfo(obs.hostinfo)
+            dest = dest_of(obs.hostinfo)
         except (ref.NotAUri, ref.Reject, TypeError, AttributeError) as e:
             bad.append(("remote-hostinfo", (obs.hostinfo, repr(e))))
         lookalike_tolerated = False
@@ -1070,6 +1188,8 @@ class Checker:
             if D.host.kind == "name":
                 if not iri_host and not (kind == "name" and value is not None and ref.ascii_lower(value) == ref.ascii_lower(D.uri_host)):
                     bad.append(("remote-host", (obs.hostinfo, D.host.text)))
+            elif (kind, value) == (D.host.kind, D.host.value) and zone != D.host.zone:
+                bad.append(("zone-id", (obs.hostinfo, zone, D.host.zone)))
             elif (kind, value, zone) != (D.host.kind, D.host.value, D.host.zone):
                 bad.append(("remote-host", (obs.hostinfo, D.host.text)))
             eff = obs.uri_port if obs.uri_port is not None else (port if port is not None else ref.DEFAULT_PORT.get(D.scheme))
@@ -1125,6 +1245,14 @@ class Checker:
             return True
         if D.escaped_dots:
             rep.monitor("g2_escaped_dot_segment")
+        zone_spelling = None
+        if D.host.zone is not None:
+            zone_spelling = D.host.text[1:-1].partition("%25")[2]
+            rep.monitor("g4_zone_uri")
+            if "%" in zone_spelling:
+                rep.monitor("g4_zone_uri_escaped_spelling")
+            if D.host.zone.startswith("25"):
+                rep.monitor("g4_zone_uri_name_begins_25")
         iri_host = iri and any(ord(c) >= 0x80 for c in D.host.text)
         st, res = self.attempt(u)
         outcome = st
@@ -1147,8 +1275,12 @@ class Checker:
             elif D.escaped_dots:
                 # RFC 7252 6.4 read letter by letter ends in option values that 5.10.1 forbids: refusing such text is tolerated
                 rep.count("escaped_dot_segment_rejected_with_url_error")
-            elif D.host.zone is not None and "%" in D.host.text.partition("%25")[2]:
-                rep.count("zone_with_escaped_characters_rejected")  # RFC 6874 allows pct-encoded in a ZoneID; no platform has such zones
+            elif D.host.zone is not None and not ref.zone_is_plain(D.host.zone):
+                rep.count("zone_name_with_other_than_unreserved_characters_rejected")  # RFC 6874 allows them pct-encoded in a ZoneID; no platform has such zones
+            elif D.host.zone is not None and "%" in zone_spelling:
+                # an ordinary zone name, some of its unreserved characters written as escapes: equivalent (RFC 3986 2.3 / 6.2.2.2) to the plain spelling
+                rep.violation("decompose/zone-id/escaped-spelling-rejected", "a valid CoAP URI whose ZoneID (RFC 6874: 1*( unreserved / pct-encoded )) spells an ordinary zone name with percent-encoded characters is rejected with %s" % type(res).__name__, dict(wit, exc=repr(res)), case)
+                violated = True
             else:
                 rep.violation("decompose/valid-uri-rejected/" + (D.host.kind), "a valid CoAP URI is rejected with %s" % type(res).__name__, dict(wit, exc=repr(res)), case)
                 violated = True
@@ -1169,6 +1301,18 @@ class Checker:
                         sub, extra = "treated-as-named-segment", {}
                         what = "a percent-encoded dot segment is treated as a named segment (a following '..' removes it instead of its parent): the URI decomposes to another path than the equivalent URI (RFC 3986 2.3) with literal dots"
                     rep.violation("decompose/pct-encoded-dot-segment/" + sub, what, dict(wit, observed=obs.as_dict(), detail=repr(detail), **extra), case)
+                    continue
+                if comp == "zone-id":
+                    got = detail[1]
+                    if got == "25" + zone_spelling:
+                        sub, what = "pct25-delimiter-kept-in-zone", "the '%25' that introduces the ZoneID in URI text (RFC 6874) is read as '%' + the first two characters of the zone name: the destination's zone is '25' + the ZoneID text"
+                    elif got is None:
+                        sub, what = "zone-dropped", "the zone identifier of the URI's IP literal is missing from the destination"
+                    elif zone_spelling is not None and got == zone_spelling and "%" in zone_spelling:
+                        sub, what = "zone-not-percent-decoded", "the ZoneID is taken over without percent-decoding"
+                    else:
+                        sub, what = "another-zone", "the destination's zone is not the one the URI names"
+                    rep.violation("decompose/zone-id/" + sub, "the destination (remote.hostinfo, RFC 4007 form) of a URI with a zoned IPv6 literal has another zone than the URI: " + what, dict(wit, observed=obs.as_dict(), destination_zone=got, uri_zone=D.host.zone), case)
                     continue
                 rep.violation(pref("iri/" if iri else "", "decompose/" + comp), "Message(uri=...) does not decompose as RFC 7252 section 6.4 says (%s)" % comp, dict(wit, observed=obs.as_dict(), detail=repr(detail)), case)
             if not violated:
@@ -1220,11 +1364,13 @@ class Checker:
         if bracketed:
             rep.monitor("g1_bracketed_host_uri")
 
-        def K(key, sym):
+        def K(key, sym, host_related=True):
             # whatever goes wrong downstream of a Uri-Host that is composed without escaping is that mechanism; a value
             # that is taken for an IP literal because it begins and ends with brackets is a mechanism of its own
             if bracketed:
                 return "compose/bracketed-non-literal-host/" + sym
+            if D.host.zone is not None and not reserved and host_related:
+                return "compose/zone-id/" + sym
             return "compose/host-reserved-char-not-escaped" if reserved else pref(pre, key)
 
         try:
@@ -1240,7 +1386,7 @@ class Checker:
         st2 = ref.classify(u2)
         if st2[0] != "ok":
             violated = True
-            rep.violation(K("compose/not-a-valid-coap-uri/" + st2[1], "not-a-uri"), "get_request_uri() produced text that is not a valid CoAP URI (%s: %s)" % st2, wit, case)
+            rep.violation(K("compose/not-a-valid-coap-uri/" + st2[1], "not-a-uri", st2[1] in ("host", "char:zone")), "get_request_uri() produced text that is not a valid CoAP URI (%s: %s)" % st2, wit, case)
         else:
             D2 = st2[1]
             rep.monitor("b_equivalent")
@@ -1251,7 +1397,7 @@ class Checker:
                 violated = True
                 names = ["scheme", "host", "host", "host", "port", "path", "query"] if not iri_host else ["scheme", "port", "path", "query"]
                 comps = sorted({names[i] for i in range(len(k1)) if k1[i] != k2[i]})
-                rep.violation(K("roundtrip/" + "+".join(comps) + "-not-equivalent", "names-another-resource"), "the composed URI is not equivalent to the input (differs in %s): a different resource" % ", ".join(comps), dict(wit, input_key=repr(k1), composed_key=repr(k2)), case)
+                rep.violation(K("roundtrip/" + "+".join(comps) + "-not-equivalent", "names-another-resource", "host" in comps), "the composed URI is not equivalent to the input (differs in %s): a different resource" % ", ".join(comps), dict(wit, input_key=repr(k1), composed_key=repr(k2)), case)
             else:
                 nf = ref.normal_form_defects(u2)
                 for aspect in nf:
@@ -1280,7 +1426,7 @@ class Checker:
             violated = True
             names = ["scheme", "host", "host", "host", "port", "path", "query"]
             comps = sorted({names[i] for i in range(len(e1)) if e1[i] != e2[i]} | ({"uri_host"} if obs.uri_host != obs2.uri_host else set()))
-            rep.violation(K("roundtrip-self/" + "+".join(comps), "decomposes-differently"), "decomposing the composed URI gives different options (%s)" % ", ".join(comps), dict(wit, first=obs.as_dict(), second=obs2.as_dict()), case)
+            rep.violation(K("roundtrip-self/" + "+".join(comps), "decomposes-differently", "host" in comps), "decomposing the composed URI gives different options (%s)" % ", ".join(comps), dict(wit, first=obs.as_dict(), second=obs2.as_dict()), case)
         if not violated:
             try:
                 u3 = res.get_request_uri()
@@ -1312,13 +1458,26 @@ class Checker:
             return "compose/host-reserved-char-not-escaped"
         if o["uri_port"] == 0 and comps == {"port"}:
             return "compose/uri-port-0-ignored"
+        if sym is not None and sym != "collapse" and (not comps or "host" in comps) and o["uri_host"] is None and o["dest"][0] == "ipv6" and o["dest"][2] is not None:
+            # the host of the composed URI is the destination's literal with its zone identifier
+            return "compose/zone-id/destination/" + sym
         return default
 
     def compose_optset(self, o, case):
         """-> composed URI or None (violation already reported)."""
         rep = self.rep
+        from harness import refuri as ref
+
         try:
             m = self.build(o)
+        except ValueError as e:
+            if o["dest"][0] == "ipv6" and o["dest"][2] is not None and not ref.zone_is_plain(o["dest"][2]):
+                # a zone name with other than unreserved characters: the library may not be able to express such a destination at all
+                rep.count("destination_zone_name_with_other_than_unreserved_characters_refused")
+                return None, False
+            rep.violation("compose/zone-id/destination/remote-refused" if o["dest"][2] is not None else "hostport/raises/ValueError", "UndecidedRemote refuses a well-formed host[:port] string: %r" % e, {"options": o, "hostinfo": optset_hostinfo(o), "tb": rep.exception_witness(e)}, case)
+            return None, None
+        try:
             return m, m.get_request_uri()
         except Exception as e:
             key = self.refine(o, set(), "compose/raises/" + type(e).__name__, "raises")
@@ -1335,10 +1494,14 @@ class Checker:
         o = dict(o, dest=tuple(o["dest"]))
         E = optset_expected(o)
         m, u = self.compose_optset(o, case)
+        if u is False:
+            return
         outcome = "ok"
         rep.monitor("c_options_roundtrip")
         if ref.bracketed_non_literal(o["uri_host"]):
             rep.monitor("g1_bracketed_host_options")
+        if o["uri_host"] is None and o["dest"][0] == "ipv6" and o["dest"][2] is not None:
+            rep.monitor("g4_zone_destination_options")
         if u is None:
             outcome = "violated"
         else:
@@ -1347,7 +1510,7 @@ class Checker:
             st = ref.classify(u)
             bad = None
             if st[0] != "ok":
-                bad = (self.refine(o, set(), "compose/not-a-valid-coap-uri/" + st[1], "not-a-uri"), "options compose to text that is not a valid CoAP URI (%s: %s)" % st, {})
+                bad = (self.refine(o, set() if st[1] in ("host", "char:zone") else {"other"}, "compose/not-a-valid-coap-uri/" + st[1], "not-a-uri"), "options compose to text that is not a valid CoAP URI (%s: %s)" % st, {})
             else:
                 k = ref.resource_key(st[1])
                 if k != E:
@@ -1385,12 +1548,80 @@ class Checker:
                 if in_domain(t) and optset_expected(t) != E:
                     rep.monitor("c_distinct")
                     _, ut = self.compose_optset(t, case)
-                    if ut is not None and ut == u:
+                    if ut and ut == u:
                         outcome = "violated"
                         rep.violation(self.refine(o, {"port"} if mv == "drop-port" else set(), self.refine(t, set(), "collapse/" + mv, "collapse"), "collapse"), "two different option sets (related by %s) compose to the same URI" % mv, dict(wit, twin=t), case)
                     rep.count("twin_" + mv)
         sig = (kind, o["scheme"], o["dest"][0], o["dport"] is None, o["uri_host"] is not None, tuple(o["flags"]), o["uri_port"] is None, min(len(o["path"]), 4), textsig("".join(o["path"])) + ("e" if "" in o["path"] else ""), min(len(o["query"]), 3), textsig("".join(o["query"])) + ("e" if "" in o["query"] else ""), outcome)
         rep.case(sig, nontrivial=bool(o["path"] or o["query"] or o["uri_host"] or o["uri_port"] is not None))
+
+    def optset_literal_host(self, o, value, zone, case):
+        """An option set whose Uri-Host value is an IP literal, "[" IPv6address [ "%25" ZoneID ] "]". RFC 7252 6.5 step 3 takes
+        it for the host of the URI as it is. Decomposing that URI puts no Uri-Host back (6.4 step 5), so the options do not
+        round-trip; what is demanded: the composed text is a valid CoAP URI, names that literal (address, zone, port, path,
+        query), and the library accepts it again with that literal as the destination."""
+        from harness import refuri as ref
+
+        rep = self.rep
+        o = dict(o, dest=tuple(o["dest"]))
+        if o["path"] == [""] or o["query"] == [""] or any(x in (".", "..") for x in o["path"]):
+            rep.count("optset_out_of_domain")
+            return
+        rep.monitor("g4_zone_literal_uri_host_options")
+        fam = "compose/zone-id/uri-host-literal/" if zone is not None else "options-roundtrip/uri-host-literal/"
+        port = o["uri_port"] if o["uri_port"] is not None else (o["dport"] if o["dport"] is not None else ref.DEFAULT_PORT[o["scheme"]])
+        E = (o["scheme"], "ipv6", value, zone, port, tuple(o["path"]), tuple(o["query"]))
+        outcome = "ok"
+        bad = None
+        try:
+            u = self.build(o).get_request_uri()
+        except Exception as e:
+            u = None
+            bad = ("raises", "get_request_uri() raised %r for an option set whose Uri-Host is an IP literal" % e, {"tb": rep.exception_witness(e)})
+        if u is not None:
+            names = ["scheme", "host", "host", "zone", "port", "path", "query"]
+            st = ref.classify(u)
+            if st[0] != "ok":
+                bad = ("not-a-uri", "options with an IP literal as Uri-Host compose to text that is not a valid CoAP URI (%s: %s)" % st, {}, st[1] in ("host", "char:zone"))
+            elif ref.resource_key(st[1]) != E:
+                k = ref.resource_key(st[1])
+                bad = ("names-another-resource", "the composed URI names another %s" % ", ".join(sorted({names[i] for i in range(7) if E[i] != k[i]})), {"decomposed": repr(k)}, any(E[i] != k[i] for i in (1, 2, 3)))
+            else:
+                st2, res = self.attempt(u)
+                if st2 == "urlerr" and zone is not None and not ref.zone_is_plain(zone):
+                    rep.count("zone_name_with_other_than_unreserved_characters_rejected")
+                elif st2 != "ok":
+                    bad = ("composed-uri-not-accepted", "set_request_uri does not accept the URI composed from an IP literal Uri-Host (%s)" % type(res).__name__, {"exc": repr(res)})
+                else:
+                    obs2 = Obs(res)
+                    try:
+                        e2 = self.effective(obs2)
+                    except (ref.NotAUri, ref.Reject):
+                        e2 = ("unparsable remote %r" % (obs2.hostinfo,),) * 7
+                    if e2 != E or obs2.uri_host is not None:
+                        bad = ("decomposes-differently", "decomposing the composed URI gives another destination / other options (%s)" % ", ".join(sorted({names[i] for i in range(7) if E[i] != e2[i]} | ({"uri_host"} if obs2.uri_host is not None else set()))), {"second": obs2.as_dict()}, obs2.uri_host is not None or any(E[i] != e2[i] for i in (1, 2, 3)))
+        if bad is not None:
+            outcome = "violated"
+            if len(bad) > 3 and not bad[3]:
+                fam = "options-roundtrip/uri-host-literal/"  # path, query, port: nothing to do with the literal's zone
+            rep.violation(fam + bad[0], bad[1], dict({"options": o, "composed": u, "expected_resource": repr(E)}, **bad[2]), case)
+        rep.case(("opt-literal-host", o["scheme"], o["dest"][0], o["dport"] is None, tuple(o["flags"]), o["uri_port"] is None, min(len(o["path"]), 4), min(len(o["query"]), 3), outcome), nontrivial=True)
+
+    def judge_bare_zone(self, u, bz, obs, case):
+        """URI text with "[<IPv6address>%<zone>]" (bare "%": not RFC 6874 syntax, rejection is in order) was accepted. The only
+        thing it can mean is that zone of that address. -> True if reported."""
+        rep = self.rep
+        if obs.proxy is not None:
+            return False
+        try:
+            (kind, value, zone), _port = dest_of(obs.hostinfo)
+        except Exception:
+            kind = value = zone = None
+        if (kind, value, zone) == ("ipv6",) + bz and obs.uri_host is None:
+            rep.count("bare_zone_kept")
+            return False
+        rep.violation("decompose/zone-id/bare-zone-changed", "URI text with a bare '%zone' in its IP literal is accepted, but the destination is not that address in that zone", {"uri": u, "observed": obs.as_dict(), "address_and_zone": list(bz)}, case)
+        return True
 
     # ---- (d) -------------------------------------------------------------------------------------------
     def must_reject(self, cls, u, case, hk="?"):
@@ -1450,6 +1681,15 @@ class Checker:
             rep.monitor("g3_junk_around_literal_uri")
         if wspos:
             rep.monitor("g3_control_or_space_uri")
+        bz = None
+        if refst == ("notauri", "bad-pct") or refst == ("notauri", "host"):
+            a = authority_of(u)
+            if a is not None and "@" not in a:
+                bz = ref.bare_zone_literal(ref.split_hostinfo_text(a)[0])
+                if bz is not None and ref.classify(u.replace("%", "%25", 1))[0] != "ok":
+                    bz = None  # something else is wrong with the text as well
+        if bz is not None:
+            rep.monitor("g4_bare_zone_uri")
         if st == "escape":
             rep.violation(escape_key(u, res), "set_request_uri let %s escape for arbitrary text" % type(res).__name__, {"text": u, "exc": repr(res), "tb": rep.exception_witness(res)}, case)
         elif st == "ok":
@@ -1481,10 +1721,12 @@ class Checker:
                     return self.valid_uri(u, case, "arb-iri", iri=True)
                 if (wspos and self.judge_control_or_space(u, obs, case)) or (shape is not None and self.judge_junk_around_literal(u, shape, obs, case)):
                     detail = "dropped"
+                elif bz is not None and self.judge_bare_zone(u, bz, obs, case):
+                    detail = "zone-changed"
                 else:
                     detail = "lenient"
                     rep.count("arbitrary_accepted_leniently")
-        rep.case(("arb", kind, st, refst[0], refst[1] if isinstance(refst[1], str) else "", detail, shape or "", self.ws_signature(u, wspos)), nontrivial=True)
+        rep.case(("arb", kind, st, refst[0], refst[1] if isinstance(refst[1], str) else "", detail, shape or "", self.ws_signature(u, wspos), bz is not None), nontrivial=True)
         rep.count("arbitrary_" + st)
 
     @staticmethod
@@ -1688,6 +1930,23 @@ class Checker:
         elif cls == "ws":
             base, u = gen_ws_uri(r)
             self.arbitrary("ws", u, case)
+        elif cls == "zone":
+            z = gen_zone_case(r)
+            if z["mode"] == "uri":
+                for k, u in enumerate(z["uris"]):
+                    try:
+                        D = ref.decompose(u)
+                        assert D.host.zone == z["zone"]
+                    except (ref.NotAUri, ref.Reject, AssertionError) as e:
+                        rep.inconc("generator defect: %r is not a valid CoAP URI with zone %r for the reference (%r)" % (u, z["zone"], e))
+                        return
+                    self.valid_uri(u, case, "zone-uri/%s/%s" % (z["zcls"], "escaped" if k else "canonical"))
+            elif z["mode"] == "dest":
+                self.optset(z["options"], case, None, kind="zone-opt")
+            elif z["mode"] == "lit":
+                self.optset_literal_host(z["options"], z["value"], z["zone"], case)
+            else:
+                self.arbitrary("bare-zone", z["uri"], case)
         else:
             raise AssertionError(cls)
 
@@ -1710,6 +1969,8 @@ class Checker:
         elif f[0] == "junk":
             self.arbitrary("fixed", "coap://" + f[1] + "/p", case)
             self.junk_hostport(f[1], case)
+        elif f[0] == "lit":
+            self.optset_literal_host(f[1], f[2], f[3], case)
 
 
 def run_shard(shard, rep, only=None):
@@ -1728,6 +1989,6 @@ def run_shard(shard, rep, only=None):
     for k in range(len(FIXED)):
         if k % shard["of"] == shard["index"]:
             ck.run_case(seed, "fixed", k)
-    for cls in ("uri", "opt", "bad", "arb", "hp", "junk", "ws"):
+    for cls in ("uri", "opt", "bad", "arb", "hp", "junk", "ws", "zone"):
         for i in range(shard["n"][cls]):
             ck.run_case(seed, cls, i)
